@@ -27,8 +27,8 @@ def load_prop(pid: str):
     return importlib.import_module(f"vmon.props.{pid}")
 
 
-def sig_hash(sig: Any) -> str:
-    return hashlib.blake2b(repr(sig).encode(), digest_size=8).hexdigest()
+def sig_hash(sig: Any) -> int:
+    return int.from_bytes(hashlib.blake2b(repr(sig).encode(), digest_size=8).digest(), "big")
 
 
 def jsonable(obj: Any) -> Any:
@@ -116,7 +116,7 @@ def worker_main(pid: str, tier: str, seed: int, shard: int, nshards: int, out_pa
                               "detail": jsonable(v.get("detail"))}
     result = {
         "evaluations": evaluations,
-        "sigs": sorted(sigs),
+        "nsigs": len(sigs),
         "extra_distinct": extra_distinct,
         "stats": dict(stats),
         "samples": samples,
@@ -128,6 +128,10 @@ def worker_main(pid: str, tier: str, seed: int, shard: int, nshards: int, out_pa
         "reach": reach.report() if reach is not None else None,
         "wall_s": time.time() - t0,
     }
+    from array import array
+
+    with open(out_path + ".sigs", "wb") as fh:
+        array("Q", sorted(sigs)).tofile(fh)
     with open(out_path, "w") as fh:
         json.dump(result, fh)
     # Leave without interpreter finalisation: CPython 3.12.1 can crash when half-finished
@@ -198,7 +202,7 @@ def run_check(pid: str, tier: str, seed: int, workers: int = 0) -> int:
         procs.append((shard, out, subprocess.Popen(cmd, env=dict(env, VERIF_SEED=str(seed)), stdout=subprocess.PIPE,
                                                    stderr=subprocess.STDOUT, text=True)))
     deadline = t0 + int(os.environ.get("VERIF_WATCHDOG", WATCHDOG[tier]))
-    merged: Dict[str, Any] = {"evaluations": 0, "sigs": set(), "stats": Counter(), "samples": [], "violations": {},
+    merged: Dict[str, Any] = {"evaluations": 0, "sigfiles": [], "stats": Counter(), "samples": [], "violations": {},
                               "vcount": Counter(), "inconclusive": [], "unraisable": [], "n_unraisable": 0,
                               "reach": {}, "worker_wall": []}
     for shard, out, proc in procs:
@@ -216,7 +220,7 @@ def run_check(pid: str, tier: str, seed: int, workers: int = 0) -> int:
             res = json.load(fh)
         os.unlink(out)
         merged["evaluations"] += res["evaluations"]
-        merged["sigs"].update(res["sigs"])
+        merged["sigfiles"].append(out + ".sigs")
         merged["extra_distinct"] = merged.get("extra_distinct", 0) + res.get("extra_distinct", 0)
         merged["stats"].update(res["stats"])
         if len(merged["samples"]) < 8:
@@ -254,8 +258,9 @@ def run_check(pid: str, tier: str, seed: int, workers: int = 0) -> int:
             new_viol.append(key)
             lines.append(f"VIOLATION property={pid} replay={os.path.relpath(path, VERIF)}")
             lines.append(f"  key={key} count={merged['vcount'][key]} :: {wit['msg'][:300]}")
+    distinct_files = list(merged["sigfiles"])
     wall = time.time() - t0
-    distinct = len(merged["sigs"]) + merged.get("extra_distinct", 0)
+    distinct = count_distinct(merged["sigfiles"]) + merged.get("extra_distinct", 0)
     reach_out = {fn: {"reached": len(info["lines"]), "total": info["total"]} for fn, info in sorted(merged["reach"].items())}
     coverage = {
         "evaluations": merged["evaluations"],
@@ -288,6 +293,13 @@ def run_check(pid: str, tier: str, seed: int, workers: int = 0) -> int:
         merged["inconclusive"].append("evidence would not validate: " + "; ".join(problems))
     with open(evidence_path, "w") as fh:
         json.dump(evidence, fh, indent=1)
+    prefix = f"{pid}.{tier}.{os.getpid()}."
+    for name in os.listdir(WORK_DIR):
+        if name.startswith(prefix):
+            try:
+                os.unlink(os.path.join(WORK_DIR, name))
+            except OSError:
+                pass
     for line in lines:
         print(line)
     summary = (f"{pid} tier={tier} seed={seed} evaluations={merged['evaluations']} distinct_nontrivial={distinct} "
@@ -303,6 +315,37 @@ def run_check(pid: str, tier: str, seed: int, workers: int = 0) -> int:
     keyc = ", ".join(f"{k}={stats[k]}" for k in list(sorted(stats))[:12])
     print(f"HELD {summary} :: {keyc}")
     return 0
+
+
+def count_distinct(files: List[str]) -> int:
+    """Exact number of distinct 64-bit signatures over all workers, in 16 passes by leading bits
+    (memory stays bounded for the multi-million case runs of the thorough tier)."""
+    from array import array
+    from bisect import bisect_left
+
+    arrays = []
+    for path in files:
+        arr = array("Q")
+        try:
+            with open(path, "rb") as fh:
+                arr.frombytes(fh.read())
+        except FileNotFoundError:
+            pass
+        try:
+            os.unlink(path)
+        except OSError:
+            pass
+        arrays.append(arr)
+    total = 0
+    for bucket in range(16):
+        lo, hi = bucket << 60, (bucket + 1) << 60
+        seen: set = set()
+        for arr in arrays:
+            a = bisect_left(arr, lo)
+            b = bisect_left(arr, hi) if hi < (1 << 64) else len(arr)
+            seen.update(arr[a:b])
+        total += len(seen)
+    return total
 
 
 def _slug(key: str) -> str:
